@@ -30,7 +30,7 @@
    of the - now satisfied - promise that was moved out of it: set_value on either throws
    std::future_error (no_state / promise_already_satisfied: both K_FAULT) before any copy is made,
    destroying or overwriting either has no effect; no other operation is ever applied to them.
-   Keys of the string maps are integers n >= 0 (the driver uses the name "n%09d": same order). *)
+   Keys of the string maps are integers n >= 0 (the driver uses the decimal text of n for n < 10, "n%09d" above: same order). *)
 From Coq Require Import List Arith ZArith Bool.
 Import ListNotations.
 From GV Require Import Sched Events.
